@@ -45,7 +45,8 @@ StepVerdict(o, i, s, strays) ==
       g == o.steps[i]
       r == Step(s, e)
   IN IF "err" \in DOMAIN g THEN "raised"
-     ELSE IF MaySwallow(e) /\ ~g.emit THEN "ok"
+     ELSE IF MaySwallow(e) /\ o.mode # "full" THEN (IF g.emit /\ g.win # <<i>> THEN "window" ELSE "ok")
+     ELSE IF MaySwallow(e) /\ g.emit THEN "fragment-trace"        \* C08: continuation records never emit
      ELSE IF g.emit # r.out.emit THEN (IF g.emit THEN "spurious-trace" ELSE "missing-trace")
      ELSE IF ~g.emit THEN (IF o.mode = "full" /\ ~EffOK(g.eff, r.eff) THEN "assignments" ELSE "ok")
      ELSE IF ~WinOK(g.win, r.out.win, strays, o.events) THEN "window"
